@@ -206,6 +206,13 @@ impl NonOwningDecoder {
                 if (b == 0x1b && *num_init_seq_bytes < 4) || (b == 0x01 && *num_init_seq_bytes >= 4)
                 {
                     *num_init_seq_bytes += 1;
+                } else if b == 0x1b {
+                    // mismatch, but the current byte can still be part of a start sequence:
+                    // after `1b1b1b1b` another 0x1b keeps the last four bytes matched, and after
+                    // `1b1b1b1b 01..` it can be the first byte of a new start sequence.
+                    let keep: u8 = if *num_init_seq_bytes == 4 { 4 } else { 1 };
+                    *num_discarded_bytes += 1 + usize::from(*num_init_seq_bytes - keep);
+                    *num_init_seq_bytes = keep;
                 } else {
                     *num_discarded_bytes += 1 + usize::from(*num_init_seq_bytes);
                     *num_init_seq_bytes = 0;
